@@ -91,6 +91,15 @@ def check_vector(case, ctx):
                 ctx.nt(text)
             if len(got) != len(exp) or not all(cmpx.close(g, e, 1e-9) for g, e in zip(got, exp)):
                 ctx.fail("C13/vector/range", {"ranges": [[a, s_, b]]}, "parse_numbers(%r) = %r, documented syntax gives %r" % (text, got[:8], exp[:8]))
+        # a stepped range followed by a plain range and a list element: every element stands on its own
+        text = "%s:%s:%s,10:12,5" % (spell(a), spell(s_), spell(b))
+        try:
+            got = [float(x) for x in verif.util.parse_numbers(text)]
+            want = exp + [10.0, 11.0, 12.0, 5.0]
+            if not (len(got) == len(want) and all(cmpx.close(g, e, 1e-9) for g, e in zip(got, want))):
+                ctx.fail("C13/vector/sequence", {"ranges": [[a, s_, b]]}, "parse_numbers(%r) = %r, documented syntax gives %r" % (text, got[:12], want[:12]))
+        except (Exception, SystemExit) as e:
+            ctx.fail("C13/vector/exception", {"ranges": [[a, s_, b]]}, "parse_numbers(%r): %s" % (text, e))
         # combined with a list
         text = "7,%s:%s:%s,-3" % (spell(a), spell(s_), spell(b))
         try:
@@ -144,6 +153,12 @@ def check_dates(case, ctx):
                 if list(got) != exp:
                     ctx.fail("C13/vector/date-range", dict(case, d1=d1, d2=d2, step=step), "parse_dates(%r) = %r..., calendar stepping gives %r..." % (text, list(got)[:5], exp[:5]))
                     return
+                if step == 7 and o1 % 9 == 0:
+                    text2 = text + ",20300105:20300107"
+                    got2 = list(verif.util.parse_numbers(text2, True))
+                    if got2 != exp + [20300105, 20300106, 20300107]:
+                        ctx.fail("C13/vector/date-sequence", dict(case, d1=d1, d2=d2, step=step), "parse_dates(%r) = ...%r" % (text2, got2[-5:]))
+                        return
     ctx.nt(case)
 
 
